@@ -4,17 +4,22 @@
 tier="${1:-quick}"; seed="${2:-0}"; outjson="${3:-seeded/RESULTS.json}"
 cd "$(dirname "$0")/.." || exit 2
 # works on a scratch worktree of /repo's HEAD (outside /repo and /verif), removed at the end
-WT=/tmp/wt/sweep
+# SHARD=k NSHARDS=n (optional): only every n-th seeded change, offset k; own worktree and side directory per shard
+SHARD="${SHARD:-0}"; NSHARDS="${NSHARDS:-1}"
+WT=/tmp/wt/sweep$SHARD
 git -C /repo worktree remove --force "$WT" 2>/dev/null
 git -C /repo worktree add --detach "$WT" HEAD >/dev/null 2>&1 || { echo "cannot create worktree"; exit 2; }
 export FEDJAX_SRC="$WT"
 # scratch and evidence of these runs are kept aside (the real evidence files describe the unchanged tree)
-export VERIF_SIDE=/tmp/wt/sweep_side
+export VERIF_SIDE=/tmp/wt/sweep_side$SHARD
 rm -rf "$VERIF_SIDE"; mkdir -p "$VERIF_SIDE"
 tmp=$(mktemp)
 echo "{" > "$tmp"
 first=1
+idx=0
 for d in seeded/C*-m*; do
+  idx=$((idx + 1))
+  [ $((idx % NSHARDS)) = "$SHARD" ] || continue
   id=$(basename "$d"); pid=${id%%-*}
   if ! git -C "$WT" apply --check "$PWD/$d/patch.diff" 2>/dev/null; then
     res="{\"detected\": null, \"note\": \"patch does not apply to /repo HEAD\"}"
